@@ -114,6 +114,12 @@ claim('C18', 'must-check gates per success exit (composed through helpers, param
       'sends key id, EncodeKeySpec/HashAlgorithmFromKeySpec of the described spec and the payload, parses every certificate fail-closed, and the generic signer returns only after Envelope.Sign, Envelope.Verify on the same object and the payload-type check; Sign/SignBlob return only those results, chosen by capability; '
       'codec tables total and inverse. Consistency of key, chain and signature is trusted to notation-core-go Sign/Verify.', 'DESIGN.md 2/C18')
 
+claim('C19', 'effect-site gates (size cap on the fetched descriptor, per loop iteration) + must-check gates per exit and per media-type branch + decode-target freshness + reader/writer agreement (config media type) + argument/option provenance on SSA',
+      'Static, all-paths: decides the structural clauses of the round-trip property — every content.FetchAll of the registry package is reachable only through a positive constant cap on the very descriptor it fetches; FetchSignatureBlob returns the fetch of the looked-up descriptor, '
+      'the lookup admits only the two manifest media types, decodes into the manifest type of that media type and requires exactly one layer/blob, returning element 0 of the decoded list; the listing appends an element only, per iteration and per branch, through cap, fetch, decode into a per-iteration '
+      'fresh target, non-nil subject content.Equal to the requested descriptor, and the notation artifact type read from the manifest decoded in that iteration, returning nothing on failure; PushSignature pushes the caller\'s media type and bytes and packs subject, annotations, the pushed blob as the single layer '
+      'and the immutable notation config whose media type is the type the listing filters on. NOT decided: byte equality itself (content addressing of oras-go is trusted) and histories in a real layout.', 'DESIGN.md 2/C19')
+
 NA_REASON = {}
 
 def main():
